@@ -478,17 +478,17 @@ def _is_panic(e: BaseException) -> bool:
     return type(e).__name__ == 'PanicException'
 
 
-def _try(out: Outcome, clause: str, fn, feature: str = ''):
+def _try(out: Outcome, clause: str, fn):
     """Run fn(); an exception (including a native panic) is an unexpected
     internal error of the code under test -> bucketed by exc_sig."""
     try:
         return True, fn()
     except Exception as e:
-        out.fail(core.exc_sig(clause, e) + feature, repr(e)[:500])
+        out.fail(core.exc_sig(clause, e), repr(e)[:500])
     except BaseException as e:
         if not _is_panic(e):
             raise
-        out.fail(core.exc_sig(clause, e) + feature, repr(e)[:500])
+        out.fail(core.exc_sig(clause, e), repr(e)[:500])
     return False, None
 
 
@@ -567,23 +567,23 @@ def check_cost(case) -> Outcome:
         return out
 
     # ---- A1 cost value, both classes
-    ok, c = _try(out, 'get_cost', lambda: float(cf.get_cost(p)))
-    if ok and not abs(c - ref) <= TOL_COST:
+    okc, c = _try(out, 'get_cost', lambda: float(cf.get_cost(p)))
+    if okc and not abs(c - ref) <= TOL_COST:
         out.fail(f'cost_value|{kind}|{path}',
                  f'get_cost={c!r} reference={ref!r}')
-    ok, c2 = _try(out, 'resid_get_cost', lambda: float(rf.get_cost(p)))
-    if ok and not abs(c2 - ref) <= TOL_COST:
+    okr, c2 = _try(out, 'resid_get_cost', lambda: float(rf.get_cost(p)))
+    if okr and not abs(c2 - ref) <= TOL_COST:
         out.fail(f'resid_cost_value|{kind}|{path}',
                  f'residuals.get_cost={c2!r} reference={ref!r}')
-    ok, c3 = _try(out, 'cost_call', lambda: float(cf(p)))
-    if ok and not abs(c3 - ref) <= TOL_COST:
-        out.fail(f'cost_call|{kind}|{path}', f'__call__={c3!r} ref={ref!r}')
+    ok3, c3 = _try(out, 'cost_call', lambda: float(cf(p)))
+    if okc and ok3 and not abs(c3 - c) <= TOL_ZERO:
+        out.fail('cost_call_differs', f'__call__={c3!r} get_cost={c!r}')
 
     # ---- A2 zero iff equal up to phase
-    if tgt.mode == 'solved' and ok and not abs(c) <= TOL_ZERO:
+    if okc and tgt.mode == 'solved' and not abs(c) <= TOL_ZERO:
         out.fail(f'cost_zero|{kind}',
                  f'target = e^(i phi) U(p) but cost(p) = {c!r}')
-    if tgt.mode != 'solved' and ok:
+    if okc and tgt.mode != 'solved':
         if ref > POSITIVE_MIN:
             if not c > 0:
                 out.fail(f'cost_positive|{kind}',
@@ -594,24 +594,25 @@ def check_cost(case) -> Outcome:
     # ---- A3 calc_cost at the circuit's stored parameters
     ref_stored = tgt.cost(refsim.circuit_unitary(circ))
     for name, gen in (('calc_cost', gen_c), ('resid_calc_cost', gen_r)):
-        ok, v = _try(out, name, lambda: float(gen.calc_cost(circ, tgt.obj)))
-        if ok and not abs(v - ref_stored) <= TOL_COST:
-            out.fail(f'{name}|{kind}|{path}',
+        ok1, v = _try(out, name, lambda: float(gen.calc_cost(circ, tgt.obj)))
+        if ok1 and not abs(v - ref_stored) <= TOL_COST:
+            out.fail(f'{name}|{kind}',
                      f'calc_cost={v!r} reference at circuit.params='
-                     f'{ref_stored!r}')
-    ok, v = _try(out, 'gen_call', lambda: float(gen_c(circ, tgt.obj)))
-    if ok and not abs(v - ref_stored) <= TOL_COST:
-        out.fail(f'gen_call|{kind}|{path}', f'{v!r} vs {ref_stored!r}')
+                     f'{ref_stored!r} ({path} path)')
+        ok2, v2 = _try(out, 'gen_call', lambda: float(gen(circ, tgt.obj)))
+        if ok1 and ok2 and not abs(v2 - v) <= TOL_ZERO:
+            out.fail('gen_call_differs', f'__call__={v2!r} calc_cost={v!r}')
 
     # ---- A4 residual vector (pinned definition)
     rref = tgt.residuals(U)
-    ok, r = _try(
+    okv, r = _try(
         out, 'get_residuals',
         lambda: np.asarray(rf.get_residuals(p), dtype=np.float64),
     )
-    if ok:
+    if okv:
         if r.shape != rref.shape:
             out.fail(f'resid_shape|{kind}', f'{r.shape} want {rref.shape}')
+            okv = False
         elif not np.abs(r - rref).max() <= TOL_RESID:
             out.fail(f'resid_value|{kind}|{path}',
                      f'max diff {np.abs(r - rref).max()!r}')
@@ -629,9 +630,9 @@ def check_cost(case) -> Outcome:
     if not all(r[0].is_differentiable() for r in rows):
         out.label('nondifferentiable-gate:cost-only')
         return out
-    if tgt.has_kink_risk(U):
-        out.label('kink-skip')
-        return out
+    kink = tgt.has_kink_risk(U)     # |tr| not differentiable near 0:
+    if kink:                        # cost-gradient clauses are skipped,
+        out.label('kink-skip')      # the residual Jacobian is smooth
 
     # central differences of the reference, one op matrix replaced at a time
     fd_cost = np.zeros(P)
@@ -671,10 +672,13 @@ def check_cost(case) -> Outcome:
         if not any(v.sig == sig for v in out.violations):
             out.fail(sig, detail)
 
-    ok, g1 = _try(
-        out, 'get_grad',
-        lambda: np.asarray(cf.get_grad(p), dtype=np.float64),
-    )
+    ok = False
+    g1 = None
+    if not kink:
+        ok, g1 = _try(
+            out, 'get_grad',
+            lambda: np.asarray(cf.get_grad(p), dtype=np.float64),
+        )
     if ok:
         if g1.shape != (P,):
             out.fail('grad_shape', f'{g1.shape} want {(P,)}')
@@ -698,14 +702,14 @@ def check_cost(case) -> Outcome:
             out.fail('cost_and_grad_type', repr(e))
             cc = g2 = None
         if g2 is not None:
-            if not abs(cc - ref) <= TOL_COST:
-                out.fail(f'cost_and_grad_cost|{kind}|{path}',
-                         f'{cc!r} vs {ref!r}')
+            if okc and not abs(cc - c) <= TOL_ZERO:
+                out.fail('cost_and_grad_cost_differs',
+                         f'get_cost_and_grad cost={cc!r} get_cost={c!r}')
             if g2.shape != (P,):
                 out.fail('cost_and_grad_shape', f'{g2.shape}')
             elif ok and np.abs(g2 - g1).max() <= TOL_SAME_GRAD:
                 pass        # same numbers as get_grad: already judged
-            else:
+            elif not kink:
                 d = np.abs(g2 - fd_cost)
                 bad = [i for i in range(P) if not d[i] <= TOL_GRAD]
                 for (pth, cls), idx in blame(bad).items():
@@ -731,21 +735,24 @@ def check_cost(case) -> Outcome:
                 f'reference residuals by {d[idx[0]]!r} (columns {idx})',
             )
 
-    ok, J = _try(
+    okj, J = _try(
         out, 'resid_get_grad',
         lambda: np.asarray(rf.get_grad(p), dtype=np.float64),
     )
-    if ok:
+    if okj:
         judge_jac(J, 'residuals.get_grad')
-    ok, ra = _try(
+    oka, ra = _try(
         out, 'get_residuals_and_grad', lambda: rf.get_residuals_and_grad(p),
     )
-    if ok:
+    if oka:
         r2 = np.asarray(ra[0], dtype=np.float64)
         J2 = np.asarray(ra[1], dtype=np.float64)
-        if r2.shape != rref.shape or not np.abs(r2 - rref).max() <= TOL_RESID:
-            out.fail(f'resid_and_grad_value|{kind}|{path}', 'residuals differ')
-        if not (J.shape == J2.shape and np.abs(J - J2).max() <= TOL_SAME_GRAD):
+        if okv and not (r2.shape == r.shape
+                        and np.abs(r2 - r).max() <= TOL_ZERO):
+            out.fail('resid_and_grad_value_differs',
+                     'get_residuals_and_grad residuals != get_residuals')
+        if not (okj and J.shape == J2.shape
+                and np.abs(J - J2).max() <= TOL_SAME_GRAD):
             judge_jac(J2, 'get_residuals_and_grad')
     out.label('grad-checked')
     return out
@@ -897,8 +904,6 @@ def check_inst(case) -> Outcome:
     pstar = np.array([x for r in rows for x in r[4]], dtype=np.float64)
     tgt = Target(case['t'], radixes, refsim.circuit_unitary(cp))
     _classify(out, spec, rows, pstar)
-    out.label('inst', 'kind:' + tgt.kind, 'inst-method:' + meth,
-              'via:' + via, f'starts:{k}')
     before = _structure(circ)
     RecMin, RecQF = _method_classes()
     log: list = []
@@ -909,10 +914,19 @@ def check_inst(case) -> Outcome:
         if not want_cls.is_capable(circ):
             out.label('no-capable-method')
             return out
+        if want_cls is Minimization and \
+                not all(r[0].is_differentiable() for r in rows):
+            # gradient-based minimisation of a gate without a gradient is
+            # outside what any caller does (implicit precondition)
+            out.label('auto:minimization-on-nondifferentiable:skipped')
+            return out
+        meth = want_cls.get_method_name() + '-auto'
     else:
         want_cls = QFactor if meth == 'qfactor' else Minimization
         if not want_cls.is_capable(circ):
             raise core.HarnessError('generator produced an incapable circuit')
+    out.label('inst', 'kind:' + tgt.kind, 'inst-method:' + meth,
+              'via:' + via, f'starts:{k}')
 
     def run():
         if via == 'obj':
@@ -957,7 +971,8 @@ def check_inst(case) -> Outcome:
             raise
         culprit = _blame_qfactor(circ) if want_cls is QFactor else '-'
         out.fail(
-            f'inst_exc|{meth}|PanicException|'
+            f'inst_exc|{want_cls.get_method_name() if via == "auto" else meth}'
+            f'|PanicException|'
             f'{core.innermost_repo_frame(e)}|{culprit}', repr(e)[:600],
         )
         return out
@@ -1119,11 +1134,14 @@ def cost_op(draw, radixes, diff_only=True, varu=False):
             return op
     if op is None:
         want_par = draw(st.integers(0, 3)) > 0
-        op = draw(specs.op_specs(
+        base = specs.op_specs(
             radixes, max_k=3, rich=True, wrappers=True, placeholders=False,
             nested_depth=1, const_unitary=True,
-        ).filter(lambda o: _gate_ok(o['gate'], diff_only) and (
-            not want_par or len(o['params']) > 0)))
+        ).filter(lambda o: _gate_ok(o['gate'], diff_only))
+        for _ in range(3):      # prefer a parameterised gate, never insist
+            op = draw(base)
+            if not want_par or len(op['params']) > 0:
+                break
     n = build_gate(op['gate']).num_params
     if 'params' not in op:
         op['params'] = draw(_params(n))
@@ -1147,18 +1165,23 @@ _BIG = st.integers(0, 2**31 - 1)
 
 
 def _scramble(x: int) -> int:
-    """Hypothesis draws small integers far more often than large ones;
-    a multiplicative hash spreads them so that the digits used for the
-    categorical choices are close to uniform (0 still maps to one fixed,
-    simple combination, which is what shrinking converges to)."""
     return ((x * 0x9E3779B1 + 0x7F4A7C15) & 0xFFFFFFFF) >> 4
 
 
 @st.composite
+def _mix(draw):
+    """A roughly uniform large integer whose digits drive the categorical
+    choices.  Hypothesis is strongly biased towards the first element of
+    sampled_from and towards 0 for integers (about a third of all draws), so
+    three independent draws are hashed together; all-zero still maps to one
+    fixed combination, which is what shrinking converges to."""
+    a, b, c = draw(_BIG), draw(_BIG), draw(_BIG)
+    return _scramble(a ^ _scramble(b ^ _scramble(c)))
+
+
+@st.composite
 def target_spec(draw, modes=('haar', 'haar', 'solved', 'perturbed')):
-    # categorical choices are taken from the digits of one large integer:
-    # sampled_from is heavily biased towards its first element
-    mix = _scramble(draw(_BIG))
+    mix = draw(_mix())
     return {
         'kind': KINDS[mix % 3],
         'mode': modes[(mix // 3) % len(modes)],
@@ -1258,7 +1281,7 @@ VIAS = ('obj', 'name', 'obj', 'auto')
 
 @st.composite
 def inst_cases(draw, drop=frozenset(), qf_unitary_only=False):
-    mix = _scramble(draw(_BIG))
+    mix = draw(_mix())
     meth = METHS[mix % 7]
     via = VIAS[(mix // 7) % 4]
     starts = 1 + (mix // 28) % 8
